@@ -21,7 +21,7 @@ EXTENDS Integers, Sequences, FiniteSets, TLC, Json
 Trace == ndJsonDeserialize("trace.ndjson")
 Starts == {i \in 1..Len(Trace) : Trace[i].e = "hdr"}
 Modes == {"ref", "on", "off"}
-Stages == 0..7
+Stages == 0..23      \* operator positions (PipeN up to N = 24)
 
 VARIABLES l, subs, srcN, torn, obs, stageOut, metric, proc, nmetricOff
 vars == <<l, subs, srcN, torn, obs, stageOut, metric, proc, nmetricOff>>
